@@ -222,6 +222,11 @@ class BundleWP(LinWP):
                 return
         return super().ex(n)
 
+    def loop(self, n):
+        if n.get('kind') == 'WhileStmt':          # `while (cond) body`: unrolled like `for (; cond; ) body` (the bundle size is a literal here)
+            return self.unroll(n, None, n['inner'][0], None, n['inner'][-1])
+        return super().loop(n)
+
     def product(self, a, b, node):
         if isinstance(a, MV) and a.rows == 0:
             raise Unsupported(f'{self.name}: product with an empty matrix')
